@@ -141,6 +141,8 @@ def generate(rng, tier):
         'actions': actions,
         'expiries': rng.choice([0, 0, 1, 1, 1, 2]),
         'crashes': rng.choice([0, 0, 0, 1]),
+        'connloss': rng.choice([0, 0, 0, 1, 2]),
+        'connloss_seed': rng.getrandbits(32),
         'tail': rng.randrange(0, 12),
     }
 
@@ -156,4 +158,5 @@ def describe(scn):
         'actions': [a['id'] for a in scn['actions']],
         'expiries': scn['expiries'],
         'crashes': scn['crashes'],
+        'connloss': scn.get('connloss', 0),
     }
